@@ -97,6 +97,16 @@
 // and the stream test moved into helpers, `hasGroup(match)`, `noServers(lb.Servers)`, named
 // deferred recoverBuild, rate evaluation moved out of RecordResult).
 //
+// Second robustness set (36 more refactorings, all silent): guards spelled with same-package
+// predicate functions over spec fields (`!isSupportedCodec(spec.Compress)`) are still spec-field
+// guards; single-definition locals inside an operand are spelled out (`servers := lb.base.Servers;
+// .. % len(servers)`); len(p) of a slice parameter is judged at the call sites; `% len(F)` of a
+// sized buffer F in a function whose indexing of F is reviewed by R-C13-7 is the same obligation;
+// push-before-rate is judged from the rate call upwards through its same-package callers; the
+// half-open admission decider is found by role (innermost function that reads the state field,
+// changes the breaker and answers with a boolean or a struct carrying one) and `answer(true)` /
+// permission{granted: true} count as admitting returns.
+//
 // Genuine defects found on today's tree (demo tests + fixes in /tmp/vw/C13/out): see final report.
 package rules
 
